@@ -261,7 +261,16 @@ func (engine *Engine) DialAsyncTimeout(network, addr string, timeout time.Durati
 			h(c, nil)
 		})
 	} else if timeout > 0 {
-		_ = c.setDeadline(&c.wTimer, ErrDialTimeout, time.Now().Add(timeout))
+		// arm the dial timeout only while the connect is still pending: it
+		// may have completed, and its callback may have run, since
+		// addDialer registered the socket.
+		c.mux.Lock()
+		if !c.closed && c.onConnected != nil && c.wTimer == nil {
+			c.wTimer = engine.AfterFunc(timeout, func() {
+				_ = c.closeWithError(ErrDialTimeout)
+			})
+		}
+		c.mux.Unlock()
 	}
 
 	return nil
